@@ -954,6 +954,39 @@ func c42IATriple(isd, as uint64) string { return fmt.Sprintf("%d-%s", isd, c42AS
 
 func c42PolicyCase(r *mon.Run, rng *rand.Rand, caseNo int) {
 	pol, all := c42GenPolicy(rng)
+	large := false
+	if caseNo%150 == 7 && len(pol.Rules) > 0 {
+		// a rule with thousands of prefixes: lines of the serialized form exceed
+		// 64 KiB (size boundary of line-oriented readers)
+		large = true
+		ru := &pol.Rules[rng.IntN(len(pol.Rules))]
+		n := 2500 + rng.IntN(4000)
+		seen := map[string]bool{}
+		for _, p := range ru.Nets {
+			seen[p.Masked().String()] = true
+		}
+		for len(ru.Nets) < n {
+			var p c42Prefix
+			if rng.IntN(2) == 0 {
+				p = c42Prefix{IP: []byte{10, byte(rng.IntN(256)), byte(rng.IntN(256)), byte(rng.IntN(256))}, Bits: 24 + rng.IntN(9)}
+			} else {
+				ip := make([]byte, 16)
+				ip[0], ip[1] = 0x20, 0x01
+				for i := 2; i < 10; i++ {
+					ip[i] = byte(rng.IntN(256))
+				}
+				p = c42Prefix{IP: ip, Bits: 48 + rng.IntN(33)}
+			}
+			p = p.Masked()
+			if seen[p.String()] {
+				continue
+			}
+			seen[p.String()] = true
+			ru.Nets = append(ru.Nets, p)
+			all = append(all, p)
+		}
+		r.Event("policy_large_rule")
+	}
 	text := c42PolicyText(rng, pol)
 	via := "text"
 	var impl *routing.Policy
@@ -963,6 +996,12 @@ func c42PolicyCase(r *mon.Run, rng *rand.Rand, caseNo int) {
 	} else {
 		impl = &routing.Policy{DefaultAction: c42Action(pol.Default)}
 		if err := impl.UnmarshalText([]byte(text)); err != nil {
+			if large {
+				// an explicit refusal of an oversized line is not a wrong answer
+				r.Class("policy/large-rule/unmarshal-refused")
+				r.Event("policy_large_unmarshal_refused")
+				return
+			}
 			r.Eval(1)
 			r.Violation("C42:policy:rejects-valid", fmt.Sprintf("UnmarshalText refused a documented policy: %v", err),
 				c42PolicyWitness{Text: text, Default: pol.Default, Via: via, Err: err.Error()})
@@ -977,9 +1016,19 @@ func c42PolicyCase(r *mon.Run, rng *rand.Rand, caseNo int) {
 		p    *routing.Policy
 	}{{"original", impl}}
 	raw, err := impl.MarshalText()
+	if err != nil && large {
+		// refusing to serialize an oversized policy is not a wrong round trip
+		r.Class("policy/large-rule/marshal-refused")
+		r.Event("policy_large_marshal_refused")
+		return
+	}
 	if err != nil {
 		r.Violation("C42:policy:marshal-error", fmt.Sprintf("MarshalText: %v", err), base)
 		return
+	}
+	if large {
+		r.Class("policy/large-rule/marshaled")
+		base.Text = fmt.Sprintf("(policy with a rule of thousands of prefixes, %d bytes of text)", len(text))
 	}
 	base.Marshaled = string(raw)
 	re := &routing.Policy{DefaultAction: impl.DefaultAction}
